@@ -585,7 +585,10 @@ def _jvm_cross_check(types):
         mod = importlib.util.module_from_spec(spec)
         spec.loader.exec_module(mod)
         strs = [hail_type(T)._parsable_string() for T in types]
-        got = mod.etype_from_python_encoding(strs)
+        got = []
+        for i in range(0, len(strs), 50000):
+            part = mod.etype_from_python_encoding(strs[i:i + 50000])
+            got.extend([part[s] for s in strs[i:i + 50000]] if isinstance(part, dict) else part)
     except Exception as ex:  # noqa: BLE001   (JVM slice unavailable: fall back, and say so)
         return f'extractor (jvm slice present but unusable: {type(ex).__name__}: {str(ex)[:120]})', 0
     from vf import c33_engine
@@ -593,8 +596,6 @@ def _jvm_cross_check(types):
     def norm(s):
         return ''.join(str(s).split()).replace('`', '')
 
-    if isinstance(got, dict):
-        got = [got[s] for s in strs]
     if len(got) != len(types):
         raise RuntimeError('jvm_engine_side returned a different number of results')
     for T, g in zip(types, got):
@@ -709,7 +710,7 @@ def check(tier, seed, procs):
 
     hailenv.install_dummy_context()
     types = type_space(tier)
-    source, n_cross = _jvm_cross_check(types[:400])
+    source, n_cross = _jvm_cross_check(types)
     for T in types[:50]:
         engine_etype(T)  # extractor failures surface here, before forking
     n_chunks = max(1, min(len(types), procs * 8))
